@@ -336,6 +336,7 @@ class Channel(BaseChannel):
         :rtype: dict
         """
         with self.rpc.lock:
+            (connection_adapter or self).check_for_errors()
             uuid = self.rpc.register_request(frame_out.valid_responses)
             self._connection.write_frame(self.channel_id, frame_out)
             return self.rpc.get_request(
